@@ -416,11 +416,10 @@ class StepCheck:
         self.e_tot: Dict[str, Fraction] = {r: Fraction(0) for r in self.desc}
         self.e_cur: Dict[str, Fraction] = {r: Fraction(0) for r in self.desc}
         self.bounds: List[Dict[str, Tuple[Fraction, Fraction]]] = []
-        self.problem: Optional[str] = None
+        self.problems: Dict[str, str] = {}  # kind (text before the first colon) -> first message
 
     def _bad(self, what: str):
-        if self.problem is None:
-            self.problem = what
+        self.problems.setdefault(what.split(":")[0], what)
 
     def after_load(self, game):
         for ref, ag in game.agents.items():
@@ -544,7 +543,7 @@ def run_impl(case: dict) -> Tuple[List[str], dict]:
                 game = None
     capture["game"] = game
     capture["bounds"] = check.bounds
-    capture["step_problem"] = check.problem
+    capture["step_problems"] = list(check.problems.values())
     return out, capture
 
 
@@ -566,55 +565,75 @@ def has_cycle_ref(graph: Dict[str, List[str]]) -> bool:
     return any(u in reach[u] for u in nodes)
 
 
-def oracle(case: dict, impl: List[str], capture: dict) -> Optional[str]:
-    """C10's own oracle on the implementation's behaviour, independent of Lean. Returns a description of a failure.
-    The reference sharing graph is the one the CONFIGURATION declares (every shared-reward component of every agent); the
-    dictionary the code hands to `graph_has_cycle` / `topological_sort` must be that graph."""
+def oracle_all(case: dict, impl: List[str], capture: dict) -> List[str]:
+    """C10's own oracle on the implementation's behaviour, independent of Lean: every failure found, one per kind (the
+    kind is the text before the first colon). The reference sharing graph is the one the CONFIGURATION declares (every
+    shared-reward component of every agent); the dictionary the code hands to `graph_has_cycle` / `topological_sort` must
+    be that graph."""
     if case["family"] not in ("game", "env"):
-        return None
+        return []
+    out: List[str] = []
     agents = capture["observed"]["agents"] if case["family"] == "env" else case["agents"]
     graph = declared_graph(agents)
     real = capture.get("graph")
+    first = impl[0]
     if real is None:
-        return "sharing graph: setup_reward_sharing never called graph_has_cycle"
-    if list(real) != list(graph):
-        return f"sharing graph: its keys {list(real)} are not the agents {list(graph)}"
-    for u in graph:
-        if set(real[u]) != set(graph[u]) or len(set(real[u])) != len(real[u]):
-            return (f"sharing graph: agent {u} declares shared-reward components on {graph[u]} but the graph handed to "
-                    f"graph_has_cycle records {sorted(real[u])} for it")
+        if not first.startswith("raised other"):
+            out.append("sharing graph: setup_reward_sharing never called graph_has_cycle")
+    elif list(real) != list(graph):
+        out.append(f"sharing graph: its keys {list(real)} are not the agents {list(graph)}")
+    else:
+        for u in graph:
+            if set(real[u]) != set(graph[u]) or len(set(real[u])) != len(real[u]):
+                out.append(f"sharing graph: agent {u} declares shared-reward components on {graph[u]} but the graph handed to "
+                           f"graph_has_cycle records {sorted(real[u])} for it")
+                break
     cyc = has_cycle_ref(graph)
     dangling = any(v not in graph for vs in graph.values() for v in vs)
-    first = impl[0]
     if cyc and first != "raised cycle":
-        return f"cyclic sharing graph {graph} was not rejected: {first}"
+        out.append(f"cycle accepted: cyclic sharing graph {graph} was not rejected: {first}")
     if not cyc and first == "raised cycle":
-        return f"acyclic sharing graph {graph} was rejected"
+        out.append(f"acyclic rejected: acyclic sharing graph {graph} was rejected")
     if not cyc and not dangling:
         if not first.startswith("ok order="):
-            return f"acyclic sharing graph {graph} failed to load: {first}"
-        order = first.split()[1][len("order="):].split(",")
-        order = [x for x in order if x]
-        if sorted(order) != sorted(graph):
-            return f"evaluation order {order} is not a permutation of the agents {list(graph)}"
-        for u in graph:
-            for v in graph[u]:
-                if order.index(v) >= order.index(u):
-                    return f"evaluation order {order}: {u} depends on {v} but is evaluated first"
-    if capture.get("step_problem"):
-        return capture["step_problem"]
+            out.append(f"acyclic not loaded: acyclic sharing graph {graph} failed to load: {first}")
+        else:
+            order = first.split()[1][len("order="):].split(",")
+            order = [x for x in order if x]
+            if sorted(order) != sorted(graph):
+                out.append(f"order not a permutation: evaluation order {order} is not a permutation of the agents {list(graph)}")
+            else:
+                bad = [(u, v) for u in graph for v in graph[u] if order.index(v) >= order.index(u)]
+                if bad:
+                    u, v = bad[0]
+                    out.append(f"order not dependencies-first: evaluation order {order}: {u} shares from {v} (declared shares "
+                               f"{graph[u]}) but is evaluated before it")
+    out += capture.get("step_problems") or []
     game = capture.get("game")
     if game is not None:
+        exact = capture["observed"].get("exact", True) if case["family"] == "env" else case.get("exact", True)
         for k, a in game.agents.items():
             if any(h.reward is None for h in a.history):
-                return f"agent {k}: a history item has no reward"
-            exact = capture["observed"].get("exact", True) if case["family"] == "env" else case.get("exact", True)
+                out.append(f"history: agent {k}: a history item has no reward")
+                break
             rs = [Fraction(h.reward) for h in a.history]
             tot = sum(rs, Fraction(0))
             slack = Fraction(0) if exact else gamma(len(rs) + 1) * sum((abs(r) for r in rs), Fraction(0))
             if abs(tot - Fraction(a.reward_function.total_reward)) > slack:
-                return f"agent {k}: total_reward {a.reward_function.total_reward} != sum of step rewards {float(tot)!r}"
-    return None
+                out.append(f"total is not the sum: agent {k}: total_reward {a.reward_function.total_reward} != sum of step rewards {float(tot)!r}")
+                break
+    seen = set()
+    uniq = []
+    for m in out:
+        if m.split(":")[0] not in seen:
+            seen.add(m.split(":")[0])
+            uniq.append(m)
+    return uniq
+
+
+def oracle(case: dict, impl: List[str], capture: dict) -> Optional[str]:
+    ms = oracle_all(case, impl, capture)
+    return ms[0] if ms else None
 
 
 # ------------------------------------------------------------------------------------------ comparing the two sides
@@ -917,5 +936,5 @@ def run_env(case: dict) -> Tuple[List[str], dict]:
         and all(len(sv[2]) in (0, 1, 2, 4, 8, 16, 32) for st in steps for sv in st["state"]["services"])
     capture["observed"] = {"agents": agents, "steps": steps, "exact": exact}
     capture["bounds"] = check.bounds
-    capture["step_problem"] = check.problem
+    capture["step_problems"] = list(check.problems.values())
     return out, capture
